@@ -9,7 +9,7 @@ From CXV Require Gen.PinsC12.
 From CXV Require Import Gen.TopLoop Parse.Balanced Parse.TopLoop.
 From CXV Require Gen.Facts.
 From CXV Require Import Gen.TokTy Parse.Declarator Parse.DeclSpec Parse.EnumList Parse.NsHeader.
-From CXV Require Import Parse.DeclThms Parse.Specs Parse.DeclStmt Parse.Bodies.
+From CXV Require Import Parse.DeclThms Parse.Specs Parse.DeclStmt Parse.Bodies Parse.ClassDef Parse.ClassDefThms.
 Open Scope N_scope.
 
 (* fold_compositional: the result of a concatenation of two declaration
@@ -110,6 +110,39 @@ Theorem declaration_statements_compose : forall pre post b items last le,
     (NDecls m (map (ditem_entry bt) items ++ [last_entry bt last le])).
 Proof. exact decl_stmt_is_stmt. Qed.
 
+(* "Scopes compose" on the PARSER side (Parse/ClassDef.v body: the statement loop over the regenerated dispatch table, with the
+   header of _parse_namespace, the translated _parse_extern / _parse_inline, the class statement and the declaration models
+   behind it, recursing into every block).  For a translation unit written as any tree of namespaces (any names, the anonymous
+   namespace), linkage blocks, class definitions (trees of C03), forward declarations, empty statements and declaration
+   statements (abstractly, as above), nested to any depth: every statement is reported once, in order, inside the block it
+   is written in -- and the unit A B reads as the items of A followed by the items of B. *)
+Theorem translation_unit_reads_back_partial : forall n dt (es : list nelem),
+  nelems_ok n dt es ->
+  ev (fun f => body (S (nssize es)) n f dt None 0 0 (flat_map nelem_toks es)) (DOk (flat_map nelem_spec es, 0, [])).
+Proof. exact unit_tree. Qed.
+
+Theorem translation_units_concatenate_partial : forall n dt (A B : list nelem),
+  nelems_ok n dt A -> nelems_ok n dt B ->
+  ev (fun f => body (S (nssize (A ++ B))) n f dt None 0 0 (flat_map nelem_toks A ++ flat_map nelem_toks B))
+     (DOk (flat_map nelem_spec A ++ flat_map nelem_spec B, 0, [])).
+Proof. exact unit_concatenation. Qed.
+
+(* ... and the statements of declaration_statement_decodes_partial (C01) are such elements *)
+Theorem declaration_statements_are_unit_elements : forall dt pre post b items last le,
+  forallb spec_kw pre = true -> forallb spec_kw post = true ->
+  has T_explicit (pre ++ post) = false -> has T_virtual (pre ++ post) = false -> has T_mutable (pre ++ post) = false ->
+  Forall ditem_ok items -> ditem_ok last -> last_ok last le ->
+  is_decl_head (hd (nm_tok b) (kw_toks pre)) ->
+  let m := apply_kws (pre ++ post) mods0 in
+  let bt := TBase b (m_const m) (m_volatile m) in
+  nelem_ok (S (length items)) dt
+    (NStmt (kw_toks pre ++ nm_tok b :: kw_toks post ++ items_toks items last le)
+           (NDecls m (map (ditem_entry bt) items ++ [last_entry bt last le]))).
+Proof. exact decl_stmt_is_nelem. Qed.
+
+Print Assumptions translation_unit_reads_back_partial.
+Print Assumptions translation_units_concatenate_partial.
+Print Assumptions declaration_statements_are_unit_elements.
 Print Assumptions declaration_sequences_concatenate_partial.
 Print Assumptions declaration_statements_compose.
 Print Assumptions namespace_header_decodes.
